@@ -107,7 +107,7 @@ def run(ctx):
             if '_intervalMS' in names and 'million' in names:
                 return 'INTERVAL_NS'
         return s.text()
-    lf = q.linear(rhs, sym=sym)
+    lf = q.linear(rhs, sym=sym, inline=prog.fns)
     iv_terms = {k: v for k, v in lf.t.items() if k != 'NOW'}
     iv_ok = iv_terms == {'INTERVAL_NS': 1} or (len(iv_terms) == 1 and list(iv_terms.values())[0] == 1000000 and list(iv_terms)[0].endswith('_intervalMS'))
     ctx.check(lf.t.get('NOW') == 1 and iv_ok and lf.c == 0, 'R31.3', T + 'operator()#rearm.value', ra.loc,
@@ -161,7 +161,9 @@ def run(ctx):
             rhs = adds[0].args[-1] if adds[0].args else adds[0].children[1]
             s = rhs.strip(casts=True)
             names = {y.decl.get('n') for y in s.walk() if y.k in ('MemberExpr', 'DeclRefExpr') and y.decl}
-            ok = s.k == 'BinaryOperator' and s.op == '*' and 'million' in names and any(q.refers_to_decl(y, sc.param_ids[1]) for y in s.walk() if y.k == 'DeclRefExpr') \
+            lfd = q.linear(rhs, sym=lambda x: 'DELAY_MS' if q.refers_to_decl(x, sc.param_ids[1]) else x.text(), inline=prog.fns)
+            ok = ((s.k == 'BinaryOperator' and s.op == '*' and 'million' in names and any(q.refers_to_decl(y, sc.param_ids[1]) for y in s.walk() if y.k == 'DeclRefExpr')) or
+                  (lfd.t == {'DELAY_MS': 1000000} and lfd.c == 0)) \
                 and scfg.dominates(scfg.vertex_of(gt[0]), scfg.vertex_of(adds[0])) and scfg.dominates(scfg.vertex_of(adds[0]), scfg.vertex_of(sets[0])) is not None
             atoms = q.controlling_atoms(sc, adds[0])
             ok = ok and any(pol and q.refers_to_decl(a, sc.param_ids[1]) for a, pol in atoms)
